@@ -410,3 +410,143 @@ pub fn observed_stage(rec: &Record) -> Option<Stage> {
         _ => None,
     }
 }
+
+/// Positive control of the comparator itself: hand-made records (the library is not involved, so a changed
+/// library cannot make the instrument look blind) must be flagged when wrong and pass when right. A failing control
+/// makes a run inconclusive, never a violation. Run at start-up by every check.
+pub fn self_test() -> Result<(), String> {
+    use crate::exec::{build_principal, build_request, build_session, copy_parts, view_of, ErrOut, OkOut};
+    use crate::gen::{gen_cfg, gen_logical, make_case, GenOpts, Overrides, Speller};
+    use crate::prng::Rng;
+    let mut r = Rng::keyed(7, "control", "judge", 0, 0);
+    let mut cfg = gen_cfg(&mut r);
+    cfg.s3 = false;
+    cfg.fold = false;
+    let l = gen_logical(&mut r, &cfg, &GenOpts::default());
+    let render = |ov: &Overrides| {
+        let mut sr = Rng::keyed(7, "control", "spell", 0, 0);
+        let mut sp = Speller {
+            r: &mut sr,
+            level: 0,
+        };
+        make_case(&l, &cfg, &mut sp, ov, 0).0
+    };
+    let good = render(&Overrides::default());
+    let bad = render(&Overrides {
+        signature: Some("0".repeat(64)),
+        ..Default::default()
+    });
+    let record = |case: &Case, outcome: Outcome, events: Vec<Ev>| -> Result<Record, String> {
+        let req = build_request(&case.wire)?;
+        Ok(Record {
+            outcome,
+            events,
+            polls: 1,
+            submitted: Some(copy_parts(req.method(), req.uri(), req.version(), req.headers())),
+            view: Some(view_of(&req)),
+        })
+    };
+    let ok_outcome = |case: &Case| -> Result<Outcome, String> {
+        let req = build_request(&case.wire)?;
+        Ok(Outcome::Ok(Box::new(OkOut {
+            parts: copy_parts(req.method(), req.uri(), req.version(), req.headers()),
+            body: case.wire.body.clone(),
+            principal: build_principal(&case.script.principal),
+            session: build_session(&case.script.session),
+        })))
+    };
+    let fake_err = |kind: Kind, msg: &str| {
+        Outcome::Err(ErrOut {
+            is_signature_error: true,
+            kind,
+            code: kind.taxonomy().0.to_string(),
+            status: kind.taxonomy().1,
+            msg: msg.to_string(),
+            debug: String::new(),
+            has_source: false,
+        })
+    };
+    let mismatch_text = "The request signature we calculated does not match the signature you provided. Check your AWS Secret Access Key and signing method. Consult the service documentation for details.";
+    let a = analyze(&view_of(&build_request(&good.wire)?), &good.cfg, &good.script, Quirks::default());
+    let Some(args) = a.provider_args.clone() else {
+        return Err(format!("control request does not reach key lookup in the reference model: {:?}", a.verdict));
+    };
+    let call = Ev::Call {
+        access_key: args.0,
+        token: args.1,
+        date: args.2,
+        region: args.3,
+        service: args.4,
+    };
+    let normal_events = vec![Ev::PollReady(1), call.clone(), Ev::FutPoll(1)];
+    let flagged = |case: &Case, rec: &Record| matches!(judge(case, rec).map(|j| j.agreement), Some(Agreement::Mismatch { .. }));
+    // right records pass
+    let right_good = record(&good, ok_outcome(&good)?, normal_events.clone())?;
+    let right_bad = record(&bad, fake_err(Kind::SignatureDoesNotMatch, mismatch_text), normal_events.clone())?;
+    if flagged(&good, &right_good) || flagged(&bad, &right_bad) {
+        return Err("comparator flags correct control records".into());
+    }
+    if mon_shadow(&good, &right_good, &judge(&good, &right_good).unwrap()).is_some()
+        || mon_returned(&good, &right_good, &judge(&good, &right_good).unwrap()).is_some()
+        || mon_provider_discipline(&good, &right_good).is_some()
+        || mon_taxonomy(&bad, &right_bad).is_some()
+    {
+        return Err("a monitor flags a correct control record".into());
+    }
+    // 1. a must-accept request reported as refused
+    if !flagged(&good, &record(&good, fake_err(Kind::SignatureDoesNotMatch, mismatch_text), normal_events.clone())?) {
+        return Err("comparator control 1 (must-accept reported refused) not flagged".into());
+    }
+    // 2. a wrong signature reported as accepted
+    let r2 = record(&bad, ok_outcome(&bad)?, normal_events.clone())?;
+    if !flagged(&bad, &r2) || mon_shadow(&bad, &r2, &judge(&bad, &r2).unwrap()).is_none() {
+        return Err("comparator control 2 (wrong signature reported accepted) not flagged".into());
+    }
+    // 3. the right refusal reported with another check's class
+    if !flagged(&bad, &record(&bad, fake_err(Kind::IncompleteSignature, "Credential must have exactly 5 slash-delimited elements"), normal_events.clone())?) {
+        return Err("comparator control 3 (wrong error class) not flagged".into());
+    }
+    // 4. taxonomy monitor: a success status on an error
+    let mut r4 = right_bad.clone();
+    if let Outcome::Err(e) = &mut r4.outcome {
+        e.status = 200;
+    }
+    if mon_taxonomy(&bad, &r4).is_none() {
+        return Err("taxonomy control not flagged".into());
+    }
+    // 5. provider discipline: two calls / call before readiness / consulted although refused earlier
+    let mut ev2 = normal_events.clone();
+    ev2.push(Ev::PollReady(1));
+    ev2.push(call.clone());
+    if mon_provider_discipline(&good, &record(&good, ok_outcome(&good)?, ev2)?).is_none() {
+        return Err("provider control (two calls) not flagged".into());
+    }
+    if mon_provider_discipline(&good, &record(&good, ok_outcome(&good)?, vec![call.clone()])?).is_none() {
+        return Err("provider control (call before readiness) not flagged".into());
+    }
+    if mon_provider_discipline(&bad, &record(&bad, fake_err(Kind::InvalidURIPath, "x"), normal_events.clone())?).is_none() {
+        return Err("provider control (consulted before checks) not flagged".into());
+    }
+    // 6. returned-parts monitor: a changed body / header must be flagged
+    let mut r6 = right_good.clone();
+    if let Outcome::Ok(o) = &mut r6.outcome {
+        o.body.push(b'!');
+    }
+    if mon_returned(&good, &r6, &judge(&good, &r6).unwrap()).is_none() {
+        return Err("returned-parts control not flagged".into());
+    }
+    // 7. provider arguments monitor
+    let mut ev7 = normal_events.clone();
+    if let Ev::Call {
+        region,
+        ..
+    } = &mut ev7[1]
+    {
+        region.push('x');
+    }
+    let r7 = record(&good, ok_outcome(&good)?, ev7)?;
+    if mon_provider_args(&good, &r7, &judge(&good, &r7).unwrap()).is_none() {
+        return Err("provider-arguments control not flagged".into());
+    }
+    Ok(())
+}
